@@ -199,11 +199,22 @@ where
             _ => ok = false,
         }
         ok &= pvk.max_degree == vk.max_degree && pvk.supported_degree == vk.supported_degree;
-        let c = marlin_pc::Commitment::<E> { comm: kzg10::Commitment(pp.powers_of_g[max.min(3)]), shifted_comm: Some(kzg10::Commitment(pp.powers_of_g[1])) };
-        let pc = marlin_pc::PreparedCommitment::<E>::prepare(&c);
-        let (tab, sh) = pc.verif_parts();
-        ok &= doublings(&tab.0, c.comm.0, bits) && *sh == c.shifted_comm;
-        ctx.check(ok, "prepared-tables", "prepare", desc.clone(), || json!({}));
+        // commitments of every shape: with / without shifted part, identity elements (the commitment to the
+        // zero polynomial, with or without a degree bound) included
+        let id = kzg10::Commitment::<E>(E::G1Affine::zero());
+        let some = kzg10::Commitment::<E>(pp.powers_of_g[max.min(3)]);
+        let other = kzg10::Commitment::<E>(pp.powers_of_g[1]);
+        let mut bad_shape = None;
+        for (k, (comm, shifted)) in [(some, Some(other)), (some, None), (some, Some(id)), (id, Some(id)), (id, None), (id, Some(other))].into_iter().enumerate() {
+            let c = marlin_pc::Commitment::<E> { comm, shifted_comm: shifted };
+            let pc = marlin_pc::PreparedCommitment::<E>::prepare(&c);
+            let (tab, sh) = pc.verif_parts();
+            if !(doublings(&tab.0, c.comm.0, bits) && *sh == c.shifted_comm) {
+                ok = false;
+                bad_shape = Some(k);
+            }
+        }
+        ctx.check(ok, "prepared-tables", "prepare", desc.clone(), || json!({"commitment_shape": bad_shape}));
     }
     interop::<S<E>>(ctx, &w, &desc, rng);
 }
